@@ -274,5 +274,11 @@ class Facts:
         return c[0]
 
 
+def in_module(path, prefix):
+    """Module membership of a def path; `<Type as Trait>::m` belongs to Type's module."""
+    q = path[1:] if path.startswith("<") else path
+    return q.startswith(prefix)
+
+
 class AnchorError(Exception):
     pass
